@@ -7,7 +7,9 @@
 (* An array is [shape |-> <<d1..dk>>, data |-> <<row-major values>>]; a     *)
 (* value is a rational <<num, den>> in lowest terms with den > 0 (integers  *)
 (* are <<x, 1>>).  `std` is compared squared (its specification value is    *)
-(* the variance; the harness logs sign(s)*s^2).                             *)
+(* the variance; the harness logs sign(s)*s^2).  Arrays are float64 unless  *)
+(* the case says bool or int8 (see NarrowCases: what NumPy documents for    *)
+(* narrow dtypes is the exact integer for sum/prod, wrap-around for a+b).   *)
 (*                                                                         *)
 (* Binding pattern P3: Generate writes the domain (Cases), the harness runs *)
 (* the real backends on numpy arrays and on the same data as DataArrays,    *)
@@ -178,7 +180,30 @@ Axes(shape) == 0..(Len(shape) - 1)
 NoZero(a) == \A i \in DOMAIN a.data : a.data[i] # 0
 PowOk(a, b) == \A i \in DOMAIN a.data : \A j \in DOMAIN b.data : a.data[i] # 0 \/ b.data[j] >= 0
 IdxSeqs(n) == UNION {[1..l -> 0..(n - 1)] : l \in 1..2} \cup {[i \in 1..n |-> n - i]}
-C(k, op, args, axis, idx, parts) == [k |-> k, op |-> op, args |-> args, axis |-> axis, idx |-> idx, parts |-> parts]
+\* dt: the dtype the harness gives the arrays: "f8" float64 (every case above), "bool" (entries 0/1), "i1" int8
+CD(k, op, args, axis, idx, parts, dt) == [k |-> k, op |-> op, args |-> args, axis |-> axis, idx |-> idx, parts |-> parts, dt |-> dt]
+C(k, op, args, axis, idx, parts) == CD(k, op, args, axis, idx, parts, "f8")
+\* Narrow dtypes.  What NumPy documents: sum/prod over the stacked arguments accumulate bool and sub-word integers in the
+\* platform integer (the exact count / sum / product); min/max stay in the dtype (exact); mean is computed in float64
+\* (exact here); element-wise add/multiply of two int8 arrays stay int8 and WRAP modulo 256.  bool (op) bool for the
+\* two-argument functions (logical or/and in NumPy) and var/std of narrow integers (squares leave the model's integer
+\* range) are left out of the domain.
+NarrowOps == {"sum", "prod", "min", "max", "mean"}
+NarrowBatchOps == {"sum", "prod", "min", "max"}
+BoolShapes == {<<1>>, <<2>>, <<3>>, <<2, 2>>}
+BoolPool(sh) == IF ProdSeq(sh) <= 2 THEN {[shape |-> sh, data |-> d] : d \in [1..ProdSeq(sh) -> {0, 1}]}
+                ELSE {[shape |-> sh, data |-> [k \in 1..ProdSeq(sh) |-> ((k + s) \div s) % 2]] : s \in 1..3}
+I1Vals == <<100, 127, 0 - 128, 2>>
+I1Shapes == {<<1>>, <<2>>, <<2, 2>>}
+I1Pool(sh) == {[shape |-> sh, data |-> [k \in 1..ProdSeq(sh) |-> I1Vals[((k + s) % 4) + 1]]] : s \in 1..(IF ProdSeq(sh) = 4 THEN 3 ELSE 4)}
+Wrap8(q) == IF q = Undef \/ q[2] # 1 THEN Undef ELSE QI(((q[1] + 128) % 256) - 128)
+WrapArr8(a) == IF IsErr(a) THEN a ELSE [a EXCEPT !.data = [i \in DOMAIN a.data |-> Wrap8(a.data[i])]]
+NarrowCases(top) ==          \* (a parameter so that TLC does not evaluate it when it starts)
+       {CD("multi", f, t, 0, <<>>, <<>>, "bool") : <<f, t>> \in UNION {NarrowOps \X Tuples(BoolPool(sh), n) : <<sh, n>> \in BoolShapes \X (2..top)}}
+  \cup {CD("multi", f, t, 0, <<>>, <<>>, "i1") : <<f, t>> \in UNION {NarrowOps \X Tuples(I1Pool(sh), n) : <<sh, n>> \in I1Shapes \X (2..top)}}
+  \cup {CD("bin", op, t, 0, <<>>, <<>>, "i1") : <<op, t>> \in {"add", "multiply"} \X UNION {I1Pool(sh) \X I1Pool(sh) : sh \in I1Shapes}}
+  \cup {CD("batched", f, t, 0, <<>>, parts, dt[1]) : <<f, t, parts, dt>> \in
+           UNION {NarrowBatchOps \X Tuples(d[2], 3) \X {<<1, 2>>, <<2, 1>>} \X {d} : d \in {<<"bool", BoolPool(<<1>>)>>, <<"i1", {a \in I1Pool(<<1>>) : a.data[1] # 2}>>}}}
 ScalarArgs == {[shape |-> <<>>, data |-> <<v>>] : v \in {0 - 1, 2, 3}}
 
 Cases(maxArgs) ==
@@ -208,6 +233,7 @@ Cases(maxArgs) ==
   \cup UNION {IF SumInts(parts) = n /\ Len(parts) > 1 /\ Len(parts) < n
               THEN {C("batched", f, t, 0, <<>>, parts) : <<f, t>> \in Variadic \X Tuples(Small(sh), n)} ELSE {}
               : sh \in {<<1>>, <<2>>, <<2, 2>>}, n \in 3..maxArgs, parts \in UNION {Comps(m) : m \in 3..maxArgs}}
+  \cup NarrowCases(3)
 
 \* TLC evaluates every constant definition of a module when it starts, so each pass is guarded by IOEnv.PASS
 Generate == IOEnv.PASS = "generate" => (LET cs == SetToSeq(Cases(MaxArgs)) IN JsonSerialize(IOEnv.CASES_FILE, [i \in 1..Len(cs) |-> cs[i]]))
@@ -223,12 +249,12 @@ Spec(c) == LET a == ArgsOf(c) IN
     [] c.k = "concat" -> Concat(a, c.axis)
     [] c.k = "take1" -> Take(a[1], c.idx[1], c.axis)
     [] c.k = "taken" -> TakeSeq(a[1], AsSeq(c.idx), c.axis)
-    [] c.k = "bin" -> Binary(c.op, a[1], a[2])
+    [] c.k = "bin" -> IF c.dt = "i1" THEN WrapArr8(Binary(c.op, a[1], a[2])) ELSE Binary(c.op, a[1], a[2])
     [] c.k = "batched" -> Apply(c.op, a, c.axis)
 ImplArr(r) == [shape |-> AsSeq(r.shape), data |-> [i \in DOMAIN r.data |-> Q(r.data[i][1], r.data[i][2])]]
 \* r = [np |-> res, xr |-> res], res = [shape, data] or [error]; marked = names carrying the marker
 PostOne(c, res, be, marked) ==
-  LET n(what) == {be \o ":" \o c.op \o ":" \o c.k \o ":" \o what}
+  LET n(what) == {be \o ":" \o c.op \o ":" \o c.k \o (IF c.dt = "f8" THEN "" ELSE "[" \o c.dt \o "]") \o ":" \o what}
       want == Spec(c)
   IN IF c.k = "batched" /\ c.op \notin marked THEN {}          \* nothing is promised for unmarked functions
      ELSE IF HasUndef(want) THEN n("outside_model_range")      \* cannot happen on this domain; never skip silently
